@@ -52,6 +52,22 @@ static size_t version(const HO& c) { return c.mCrew.mData->version; }
 static size_t version(const TN& c) { return c.mCrew.mData->version; }
 static size_t version(const TNM& c) { return c.mTreeSet.mCrew.mData->version; }
 
+// the address a handle's VersionKeeper points to, and the address of a container's version cell (private members are visible here)
+static const size_t* keeperOf(const HS::ConstIterator& h) { return h.mContainerVersion; }
+static const size_t* keeperOf(const TS::ConstIterator& h) { return h.mContainerVersion; }
+static const size_t* keeperOf(const HO::ConstIterator& h) { return h.mContainerVersion; }
+static const size_t* keeperOf(const TN::ConstIterator& h) { return h.mContainerVersion; }
+static const size_t* keeperOf(const HM::ConstIterator& h) { return h.mHashSetIterator.mContainerVersion; }
+static const size_t* keeperOf(const TM::ConstIterator& h) { return h.mTreeSetIterator.mContainerVersion; }
+static const size_t* keeperOf(const TNM::ConstIterator& h) { return h.mTreeSetIterator.mContainerVersion; }
+static const size_t* cellOf(const HS& c) { return &c.mCrew.mData->version; }
+static const size_t* cellOf(const TS& c) { return &c.mCrew.mData->version; }
+static const size_t* cellOf(const HO& c) { return &c.mCrew.mData->version; }
+static const size_t* cellOf(const TN& c) { return &c.mCrew.mData->version; }
+static const size_t* cellOf(const HM& c) { return &c.mHashSet.mCrew.mData->version; }
+static const size_t* cellOf(const TM& c) { return &c.mTreeSet.mCrew.mData->version; }
+static const size_t* cellOf(const TNM& c) { return &c.mTreeSet.mCrew.mData->version; }
+
 template<class C> struct Traits;
 template<> struct Traits<HS> { static const bool tree = false, map = false; };
 template<> struct Traits<HM> { static const bool tree = false, map = true; };
@@ -88,6 +104,13 @@ template<class C> struct Run
 	}
 	bool sameAsTwin(int i) { std::vector<int> v = contents(i), t(twin[i].begin(), twin[i].end()); return v == t && c[i].GetCount() == t.size(); }
 	H& slot(int i) { return hs[i]; }
+	// the assignment destroys container d's version cell: handles whose keeper points into it are dangling (use-after-free to touch them);
+	// like the model, forget them (they become empty handles) -- every OTHER handle is left exactly as it is
+	void dropDangling(int d)
+	{
+		const size_t* cell = cellOf(c[d]);
+		for (auto& kv : hs) if (keeperOf(kv.second) == cell) kv.second = H();
+	}
 
 	// perform one call; classify
 	template<class F> void call(F f, std::function<void()> twinUpdate = nullptr)
@@ -211,11 +234,13 @@ template<class C> struct Run
 		else if (name == "moveto")      // c[dst] = std::move(c[src]); c[src] = C();   (handles of the source follow the contents)
 		{
 			int s = a[0] ? 1 : 0, d = 1 - s;
+			dropDangling(d);
 			call([&] { c[d] = std::move(c[s]); c[s] = C(); return std::string(); }, [&, s, d] { twin[d] = twin[s]; twin[s].clear(); });
 		}
 		else if (name == "copyto")      // c[dst] = c[src]   (the destination gets a new version cell; source handles stay with the source)
 		{
 			int s = a[0] ? 1 : 0, d = 1 - s;
+			dropDangling(d);
 			call([&] { c[d] = c[s]; return std::string(); }, [&, s, d] { twin[d] = twin[s]; });
 		}
 		else if (name == "insmany")
